@@ -171,13 +171,9 @@ func ReadFile(r Reader, out interface{}, cb func(val unsafe.Pointer, rb *Resourc
 		if err != nil {
 			return fmt.Errorf("reading data block length. %w", err)
 		}
-		if cap(compressed) < int(dataLength) {
-			compressed = make([]byte, dataLength)
-		} else {
-			compressed = compressed[:dataLength]
-		}
-		if n, err := io.ReadFull(r, compressed); err != nil {
-			return fmt.Errorf("reading %d bytes of compressed data: %w after %d bytes", dataLength, err, n)
+		compressed, err = readN(r, compressed, dataLength)
+		if err != nil {
+			return fmt.Errorf("reading %d bytes of compressed data: %w after %d bytes", dataLength, err, len(compressed))
 		}
 		uncompressed, err := decoder.decompress(compressed)
 		if err != nil {
@@ -261,9 +257,38 @@ func readBytes(r Reader) ([]byte, error) {
 	if err != nil {
 		return nil, err
 	}
-	v := make([]byte, l)
-	_, err = io.ReadFull(r, v)
-	return v, err
+	return readN(r, nil, l)
+}
+
+// readN reads exactly n bytes from r, reusing buf if it is big enough. n is a
+// length declared by the file, so it is not trusted: memory is only allocated
+// as the data actually arrives.
+func readN(r io.Reader, buf []byte, n int64) ([]byte, error) {
+	if n < 0 {
+		return nil, fmt.Errorf("negative length %d", n)
+	}
+	const chunk = 1 << 20
+	buf = buf[:0]
+	for int64(len(buf)) < n {
+		want := n - int64(len(buf))
+		if want > chunk {
+			want = chunk
+		}
+		if int64(cap(buf)-len(buf)) < want {
+			grown := make([]byte, len(buf), max(2*cap(buf), len(buf)+int(want)))
+			copy(grown, buf)
+			buf = grown
+		}
+		m, err := io.ReadFull(r, buf[len(buf):len(buf)+int(want)])
+		buf = buf[:len(buf)+m]
+		if err != nil {
+			if err == io.EOF {
+				err = io.ErrUnexpectedEOF
+			}
+			return buf, err
+		}
+	}
+	return buf, nil
 }
 
 func (fh FileHeader) schema() (schema Schema, err error) {
